@@ -930,6 +930,172 @@ def note_rounds(ctx, key, rounds, budget):
 
 
 # ------------------------------------------------------------------------------------------------
+# concurrency stream: several secure-integer operations are LAUNCHED without awaiting, on operands that come
+# from different senders (so they become available in a different order at different parties); every party
+# then yields to its event loop a different number of times (different speeds) and all parties issue and await
+# unrelated multiplications; finally everything is opened and compared with Python ints at every party.
+
+CONC_OPS = ['in_prod_xx', 'in_prod_yy', 'in_prod_xy', 'in_prod_yz', 'matrix_prod', 'matrix_prod_self', 'prod', 'mul',
+            'lt', 'eq', 'mod', 'sgn', 'abs', 'if_else', 'sum', 'schur', 'scalar_mul', 'all', 'gcd', 'gcdext', 'lsb', 'max']
+
+
+def conc_case(rng, l):
+    h = 1 << (l - 1)
+    small = lambda: rng.choice([0, 1, -1, 2, -3, 5, -7, 11, rng.randint(-40, 40)])
+    big = lambda: rng.choice([h - 1, -h, rng.randint(-(1 << (l // 2 - 2)), 1 << (l // 2 - 2))])
+    n = rng.choice([3, 4])
+    lim = 1 << (l // 2 - 2)
+    xs = [rng.choice([small(), rng.randint(-lim, lim)]) for _ in range(n)]
+    ys = [rng.choice([small(), rng.randint(-lim, lim)]) for _ in range(n)]
+    zs = [small() for _ in range(n)]
+    ops = rng.sample(['in_prod_xx', 'in_prod_yy', 'in_prod_xy', 'in_prod_yz'], rng.randint(2, 3))
+    pool = [o for o in CONC_OPS if o not in ops and not o.startswith('gcd')]
+    ops += rng.sample(pool, rng.randint(1, 3))
+    if l == 8 and rng.random() < 0.35:
+        ops.append(rng.choice(['gcd', 'gcdext']))
+    rng.shuffle(ops)
+    return {'l': l, 'xs': xs, 'ys': ys, 'zs': zs, 'ops': ops, 'ext': [big(), big()], 'b': rng.choice([2, 3, 4, 7, 10]),
+            'senders': [rng.randrange(8), rng.randrange(8), rng.randrange(8)], 'nmul': rng.randrange(10, 31),
+            'yields': [rng.choice([0, 0, 1, 2, 3, 4, 5, 6]) for _ in range(8)], 'mid': [rng.choice([0, 0, 1, 3, 5]) for _ in range(8)]}
+
+
+def conc_expected(case):
+    xs, ys, zs, (e0, e1), b = case['xs'], case['ys'], case['zs'], case['ext'], case['b']
+    dot = lambda u, v: sum(p * q for p, q in zip(u, v))
+    want = {}
+    for op in case['ops']:
+        want[op] = {
+            'in_prod_xx': lambda: [dot(xs, xs)], 'in_prod_yy': lambda: [dot(ys, ys)], 'in_prod_xy': lambda: [dot(xs, ys)],
+            'in_prod_yz': lambda: [dot(ys, zs)], 'matrix_prod': lambda: [dot(xs, ys), dot(xs, zs), dot(zs, ys), dot(zs, zs)],
+            'matrix_prod_self': lambda: [dot(xs, xs), dot(xs, zs), dot(zs, xs), dot(zs, zs)],
+            'prod': lambda: [math.prod(zs)], 'mul': lambda: [xs[0] * ys[1]], 'lt': lambda: [int(e0 < e1)], 'eq': lambda: [int(xs[0] == ys[0])],
+            'mod': lambda: [e0 % b], 'sgn': lambda: [_sgn(e1)], 'abs': lambda: [abs(xs[1])], 'if_else': lambda: [ys[0] if zs[0] % 2 else xs[0]],
+            'sum': lambda: [sum(xs) + sum(ys)], 'schur': lambda: [p * q for p, q in zip(xs, ys)], 'scalar_mul': lambda: [zs[0] * q for q in ys],
+            'all': lambda: [int(all(v % 2 for v in zs))], 'gcd': lambda: [math.gcd(xs[0], ys[0])], 'gcdext': lambda: None,
+            'lsb': lambda: [e0 % 2], 'max': lambda: [max(xs + [ys[0]])]}[op]()
+    return want
+
+
+def make_conc_prog(case):
+    import asyncio
+
+    async def prog(mpc, mods, pid):
+        m = len(mpc.parties)
+        secint = mpc.SecInt(case['l'])
+        s0, s1, s2 = [q % m for q in case['senders']]
+        inp = lambda vals, s: mpc.input([secint(v if pid == s else 0) for v in vals], senders=s)
+        x, y, z = inp(case['xs'], s0), inp(case['ys'], s1), inp(case['zs'], s2)
+        e0 = mpc.input(secint(case['ext'][0] if pid == s1 else 0), senders=s1)
+        e1 = mpc.input(secint(case['ext'][1] if pid == s2 else 0), senders=s2)
+        launched = []
+        for j, op in enumerate(case['ops']):        # launched, NOT awaited
+            r = {'in_prod_xx': lambda: [mpc.in_prod(x, x)], 'in_prod_yy': lambda: [mpc.in_prod(y, y)],
+                 'in_prod_xy': lambda: [mpc.in_prod(x, y)], 'in_prod_yz': lambda: [mpc.in_prod(y, z)],
+                 'matrix_prod': lambda: [c for row in mpc.matrix_prod([x, z], [y, z], True) for c in row],
+                 'matrix_prod_self': lambda: (lambda A: [c for row in mpc.matrix_prod(A, A, True) for c in row])([x, z]),
+                 'prod': lambda: [mpc.prod(z)], 'mul': lambda: [x[0] * y[1]], 'lt': lambda: [e0 < e1], 'eq': lambda: [x[0] == y[0]],
+                 'mod': lambda: [e0 % case['b']], 'sgn': lambda: [mpc.sgn(e1)], 'abs': lambda: [abs(x[1])],
+                 'if_else': lambda: [mpc.if_else(mpc.lsb(z[0]), y[0], x[0])], 'sum': lambda: [mpc.sum(x + y)],
+                 'schur': lambda: list(mpc.schur_prod(x, y)), 'scalar_mul': lambda: list(mpc.scalar_mul(z[0], y)),
+                 'all': lambda: [mpc.all([mpc.lsb(v) for v in z])], 'gcd': lambda: [mpc.gcd(x[0], y[0])],
+                 'gcdext': lambda: list(mpc.gcdext(x[0], y[0])), 'lsb': lambda: [mpc.lsb(e0)],
+                 'max': lambda: [mpc.max(x + [y[0]])]}[op]()
+            launched.append((op, r))
+            if j == 1:
+                for _ in range(case['mid'][pid % 8]):
+                    await asyncio.sleep(0)
+        # local scheduling differences: each party yields to its event loop a different number of times
+        for _ in range(case['yields'][pid % 8]):
+            await asyncio.sleep(0)
+        unrelated = []
+        for j in range(case['nmul']):               # unrelated secure work, issued and awaited in the same order by all
+            if j == case['nmul'] // 2:
+                for _ in range(case['yields'][(pid + 1) % 8]):
+                    await asyncio.sleep(0)
+            w = mpc.input(secint(pid + j + 2))
+            v = await mpc.output(w[0] * w[-1] + j)
+            unrelated.append(int(v))
+        out = {}
+        for op, r in launched:
+            out[op] = [int(v) for v in await mpc.output(r)]
+        out['unrelated'] = unrelated
+        return out
+    return prog
+
+
+def concurrency_stream(ctx, Sim):
+    import random as _random
+    from lib.sim import RandomOrder, ReverseLinks, Hold, Fifo
+    rng = ctx.rng
+    names = ['RandomOrder', 'Hold', 'ReverseLinks', 'RandomOrder', 'Fifo']
+
+    def policy(k, m):
+        nm = names[k % len(names)]
+        if nm == 'RandomOrder':
+            return RandomOrder(_random.Random(ctx.seed * 7907 + 5 + k), lazy=0.2)
+        if nm == 'ReverseLinks':
+            return ReverseLinks()
+        if nm == 'Hold':
+            links = [(i, j) for i in range(m) for j in range(m) if i != j]
+            return Hold(set(rng.sample(links, len(links) // 2)), rng.choice([10, 40, 120]))
+        return Fifo()
+    BUDGET = 600000         # clean tree: <= ~2500 rounds per case (<= ~40000 with a gcd-type op under RandomOrder); observed maxima recorded in evidence
+    ncase, nbad = 0, 0
+    for (m, t, np_) in ((3, 1, False), (3, 1, True), (4, 1, False), (4, 1, True)):
+        sim = None
+        try:
+            for k in range(ctx.n(5, 20)):
+                if nbad >= 5:
+                    break                         # enough reports; every unfinished case costs a full round budget
+                case = conc_case(rng, rng.choice([8, 16, 32]))
+                want = conc_expected(case)
+                pname = names[k % len(names)]
+                if sim is None:
+                    sim = Sim(m=m, t=t, no_prss=np_, seed=ctx.seed * 53 + 11 * m + k + (3 if np_ else 0), log_messages=False, track_tasks=False)
+                    sim.start(Fifo())
+                res = sim.run(make_conc_prog(case), policy(k, m), idle_limit=BUDGET, max_rounds=BUDGET)
+                note_rounds(ctx, 'concurrent %s' % pname, sim.rounds, BUDGET)
+                ncase += 1
+                ctx.case({'concurrent': case, 'm': m, 't': t, 'np': np_, 'policy': pname}, nontrivial=True,
+                         kind='concurrent m=%d %s' % (m, 'noPRSS' if np_ else 'PRSS'))
+                cfg = 'm=%d t=%d %s policy=%s' % (m, t, 'noPRSS' if np_ else 'PRSS', pname)
+                if not all(isinstance(r, dict) for r in res):
+                    nbad += 1
+                    ctx.violation('concurrent did-not-complete ops=%s %s' % ('+'.join(case['ops']), cfg),
+                                  {'case': case, 'm': m, 't': t, 'no_prss': np_, 'policy': pname, 'rounds': sim.rounds,
+                                   'results': [repr(r)[:200] for r in res]})
+                    sim.close()
+                    sim = None                    # fresh simulator after a hang / exception
+                    continue
+                bad = []
+                for pid, r in enumerate(res):
+                    for op in case['ops']:
+                        got = r[op]
+                        if op == 'gcdext':
+                            g, s_, t_ = got
+                            a, b = case['xs'][0], case['ys'][0]
+                            if g != math.gcd(a, b) or s_ * a + t_ * b != g:
+                                bad.append((pid, op, got, 'gcd and Bezout identity for %d, %d' % (a, b)))
+                        elif got != want[op]:
+                            bad.append((pid, op, got, want[op]))
+                    mm = len(res)
+                    wu = [(j + 2) * (j + mm + 1) + j for j in range(case['nmul'])]
+                    if r['unrelated'] != wu:
+                        bad.append((pid, 'unrelated-mul', r['unrelated'][:5], wu[:5]))
+                if bad:
+                    nbad += 1
+                    ctx.violation('concurrent wrong-result op=%s %s' % (bad[0][1], cfg),
+                                  {'case': case, 'm': m, 't': t, 'no_prss': np_, 'policy': pname, 'bad': [list(map(str, b)) for b in bad[:8]]})
+                    sim.close()
+                    sim = None                    # program counters of the parties may be out of step
+        finally:
+            if sim is not None:
+                sim.close()
+    ctx.extra['concurrent_cases'] = ncase
+    ctx.log('concurrency stream (m=3,4; t=1; PRSS on/off): %d cases, %d bad' % (ncase, nbad))
+
+
+# ------------------------------------------------------------------------------------------------
 # list-aliasing stream: call a list-taking API, mutate the caller's list in place, then open the result
 
 MUTATIONS = {
@@ -1255,6 +1421,9 @@ def run(ctx):
 
     # ---- list aliasing: the caller edits its list after the call, before the result is awaited
     alias_stream(ctx, Sim)
+
+    # ---- concurrency: operations launched without awaiting, parties at different speeds, adversarial delivery schedules
+    concurrency_stream(ctx, Sim)
 
     if ctx.broken and not ctx.violations:
         ctx.unproved('C01 model/proof', {'broken': ctx.broken[:5]})
